@@ -108,13 +108,11 @@ func GenBook(t *rapid.T, maxChapters int, text TextFn) Book {
 				items = append(items[:pos], append([]Item{it}, items[pos:]...)...)
 				spineItems++
 			} else {
-				it.Chapter.Heading = "Contents"
-				defer func() {}() // (nav outside the spine is appended below)
+				it.Chapter.Heading = "Contents" // nav outside the spine: an ordinary fixed heading
 				items = append(items, it)
 			}
 		}
 	}
-	navOutside := len(items) > spineItems
 	if (b.Version == "2.0" && rapid.IntRange(0, 9).Draw(t, "hasNCX") < 8) || (b.Version == "3.0" && rapid.IntRange(0, 2).Draw(t, "hasNCX3") == 0) {
 		items = append(items, Item{Path: rapid.SampledFrom([]string{"toc.ncx", dir + "toc.ncx"}).Draw(t, "ncxPath"), Role: "ncx"})
 	}
@@ -129,7 +127,6 @@ func GenBook(t *rapid.T, maxChapters int, text TextFn) Book {
 			items = append(items, Item{Path: "fonts/f.otf", MediaType: "font/otf"})
 		}
 	}
-	_ = navOutside
 	// ids: independent numbering
 	idForm := rapid.SampledFrom([]string{"item%d", "id-%d", "x%d", "ch%d"}).Draw(t, "idForm")
 	idNums := make([]int, len(items))
